@@ -599,4 +599,804 @@ theorem DI_wstep {s s' : CState} {A : List Writer} {i : Nat} {w w' : Writer} {cp
     · simp at hw
   · simp at hw
 
+/-! ### phases of one use cycle -/
+
+def tailOps (cy : Cycle) : List Op :=
+  List.replicate cy.pulls Op.pull ++ (if cy.clear then [Op.clear] else [])
+
+theorem cycle_ops_eq (cy : Cycle) : cy.ops = cy.pushes.map Op.push ++ Op.finalise :: tailOps cy := rfl
+
+def acts (s : CState) : List Writer := s.writers ++ (if s.pc = .finWrite then [s.inl] else [])
+
+def pushOuts (k : Nat) : List Out := (List.range k).map (fun i => (⟨.ok, none, i + 1, i + 1⟩ : Out))
+
+theorem pushOuts_succ (k : Nat) : pushOuts (k + 1) = pushOuts k ++ [⟨.ok, none, k + 1, k + 1⟩] := by
+  simp [pushOuts, List.range_succ]
+
+/-- outputs of the successful pulls: the j-th delivers `ds[j]`, `Len` = n, `Pos` = j+1 -/
+def dOuts (n : Nat) : Nat → List Elem → List Out
+  | _, [] => []
+  | j, d :: ds => ⟨.ok, some d, n, j + 1⟩ :: dOuts n (j + 1) ds
+
+theorem dOuts_append (n : Nat) (ds : List Elem) (d : Elem) : ∀ j,
+    dOuts n j (ds ++ [d]) = dOuts n j ds ++ [⟨.ok, some d, n, j + ds.length + 1⟩] := by
+  induction ds with
+  | nil => intro j; simp [dOuts]
+  | cons x xs ih =>
+    intro j
+    simp only [List.cons_append, dOuts, List.length_cons, ih (j + 1)]
+    have : j + 1 + xs.length + 1 = j + (xs.length + 1) + 1 := by omega
+    rw [this]
+
+/-- the pulls of `specCycle` for `ys = ds ++ rs` when `ds` were delivered and then `e` times io.EOF -/
+theorem spec_pulls (ac : Bool) (n : Nat) (ds rs : List Elem) (e : Nat) (he : 0 < e → rs = []) : ∀ j,
+    (List.range' j (ds.length + e)).map (fun i =>
+        match (ds ++ rs)[i - j]? with
+        | some v => (⟨.ok, some v, n, i + 1⟩ : Out)
+        | none => ⟨.eof, none, if ac then 0 else n, if ac then 0 else n⟩)
+      = dOuts n j ds ++ List.replicate e (eofOut ac n) := by
+  induction ds with
+  | nil =>
+    intro j
+    simp only [List.length_nil, Nat.zero_add, List.nil_append, dOuts]
+    cases e with
+    | zero => simp
+    | succ e' =>
+      have hrs := he (Nat.succ_pos _)
+      subst hrs
+      simp [eofOut, List.map_const']
+  | cons d ds ih =>
+    intro j
+    have hlen : (d :: ds).length + e = (ds.length + e) + 1 := by simp; omega
+    rw [hlen, List.range'_succ]
+    simp only [List.map_cons, Nat.sub_self, List.cons_append, List.getElem?_cons_zero, dOuts]
+    congr 1
+    rw [← ih (j + 1)]
+    apply List.map_congr_left
+    intro i hi
+    have hij : j + 1 ≤ i := (List.mem_range'_1.mp hi).1
+    have : i - j = (i - (j + 1)) + 1 := by omega
+    rw [this, List.getElem?_cons_succ]
+
+theorem final_outs (ac : Bool) (cy : Cycle) (ds rs : List Elem) (e : Nat)
+    (hlen : ds.length + e = cy.pulls) (he : 0 < e → rs = []) :
+    pushOuts cy.pushes.length ++ (⟨.ok, none, cy.pushes.length, 0⟩ ::
+        (dOuts cy.pushes.length 0 ds ++ List.replicate e (eofOut ac cy.pushes.length)
+          ++ (if cy.clear then [(⟨.ok, none, 0, 0⟩ : Out)] else [])))
+      = specCycle ac (ds ++ rs) cy := by
+  unfold specCycle pushOuts
+  simp only
+  congr 2
+  rw [← hlen, List.range_eq_range', ← spec_pulls ac cy.pushes.length ds rs e he 0]
+  simp
+  intro a _; rfl
+
+variable (c : Nat) (ac : Bool) (cy : Cycle)
+
+/-- an I/O error has been returned to the caller -/
+def Reported (s : CState) : Prop := ∃ o ∈ s.outs, o.res = .ioerr
+
+/-- a writer has recorded an error that the caller has not yet seen; it is still inside the
+    filling part of the cycle, where every call checks the error slot before it returns -/
+def Pending (s : CState) : Prop :=
+  s.m.err = some .ioerr ∧ ((∃ e rest, s.prog = Op.push e :: rest) ∨ (∃ rest, s.prog = Op.finalise :: rest))
+
+/-- filling: `xs` pushed so far, `todo` still to push, `ch` = the slice `m.chunk` refers to,
+    `cp` = the part of it the caller still owns -/
+structure PhaseF (s : CState) (xs todo ch cp : List Elem) : Prop where
+  split : cy.pushes = xs ++ todo
+  prog : s.prog = todo.map Op.push ++ Op.finalise :: tailOps cy
+  outs : s.outs.reverse = pushOuts xs.length
+  pos : s.m.pos = xs.length
+  len : s.m.len = xs.length
+  cs : s.m.chunkSize = c
+  ac : s.m.autoClear = ac
+  chunk : s.m.chunk = some ch
+  chLe : ch.length ≤ c
+  empty : s.writers = [] → s.m.files = [] ∧ s.writable.buf = []
+  di : DI s.writable.buf s.writers s.m.files cp xs
+  at_ : (s.pc = .idle ∧ cp = ch ∧ xs.length = s.writers.length * c + ch.length ∧ (s.writers ≠ [] → ch ≠ []))
+      ∨ (s.pc = .pushSend ∧ cp = ch ∧ ch.length = c ∧ xs.length = s.writers.length * c + c)
+      ∨ (s.pc = .pushRecv ∧ cp = [] ∧ xs.length = s.writers.length * c ∧ s.writers ≠ [])
+
+/-- inside a spilling `Finalise`; `A` = the `write()` activations, `cp` = the caller's chunk -/
+structure PhaseZ (s : CState) (A : List Writer) (cp : List Elem) : Prop where
+  prog : s.prog = Op.finalise :: tailOps cy
+  outs : s.outs.reverse = pushOuts cy.pushes.length
+  pos : s.m.pos = cy.pushes.length
+  len : s.m.len = cy.pushes.length
+  cs : s.m.chunkSize = c
+  ac : s.m.autoClear = ac
+  fast : s.m.fast = false
+  di : DI s.writable.buf A s.m.files cp cy.pushes
+  at_ : (s.pc = .finSend ∧ A = s.writers ∧ s.m.chunk = some cp ∧ cp ≠ [])
+      ∨ (s.pc = .finWrite ∧ A = s.writers ++ [s.inl] ∧ s.m.chunk = none ∧ cp = [])
+      ∨ (s.pc = .finWait ∧ A = s.writers ∧ s.m.chunk = none ∧ cp = [] ∧ 1 ≤ s.m.pool)
+
+/-- after `Finalise`: `ds` delivered, then `e` times io.EOF, `k` pulls still to make -/
+structure PhaseD (s : CState) : Prop where
+  pc : s.pc = .idle
+  quiet : ∀ w ∈ s.writers, w.pc = .done
+  ex : ∃ (ds : List Elem) (e k : Nat),
+    s.prog = List.replicate k Op.pull ++ (if cy.clear then [Op.clear] else []) ∧
+    ds.length + e + k = cy.pulls ∧
+    s.outs.reverse = pushOuts cy.pushes.length ++ (⟨.ok, none, cy.pushes.length, 0⟩ ::
+        (dOuts cy.pushes.length 0 ds ++ List.replicate e (eofOut ac cy.pushes.length))) ∧
+    Sorted ds ∧
+    ((e = 0 ∧ Draining c ac 1 s.m cy.pushes.length ∧ (ds ++ remaining s.m).Perm cy.pushes
+        ∧ (∀ d ∈ ds, ∀ r ∈ remaining s.m, d.key ≤ r.key) ∧ s.m.pos = ds.length)
+     ∨ (0 < e ∧ AtEof c ac 1 s.m cy.pushes.length ∧ ds.Perm cy.pushes))
+
+/-- the outputs of the whole cycle are those the property demands -/
+def Final (s : CState) : Prop := ∃ ys, SortedPermOf ys cy.pushes ∧ s.outs.reverse = specCycle ac ys cy
+
+/-- the cycle is over (after its `Clear`) -/
+structure PhaseEnd (s : CState) : Prop where
+  pc : s.pc = .idle
+  prog : s.prog = []
+  quiet : ∀ w ∈ s.writers, w.pc = .done
+  final : Final ac cy s
+
+/-- the invariant of one use cycle -/
+def CInv (s : CState) : Prop :=
+  Reported s ∨ Pending s ∨
+  (s.m.err = none ∧ ((∃ xs todo ch cp, PhaseF c ac cy s xs todo ch cp) ∨ (∃ A cp, PhaseZ c ac cy s A cp)
+      ∨ PhaseD c ac cy s ∨ PhaseEnd ac cy s))
+
+/-! ### the blocks of the caller, one constructor per branch of `cstep` -/
+
+inductive CStep (s : CState) : CState → Prop where
+  | pushErr (e : Elem) (rest : List Op) (r : Res) : s.pc = .idle → s.prog = Op.push e :: rest →
+      s.m.err = some r → CStep s (finishOp s r none)
+  | pushNil (e : Elem) (rest : List Op) : s.pc = .idle → s.prog = Op.push e :: rest →
+      s.m.err = none → s.m.chunk = none → CStep s (finishOp s .finalised none)
+  | pushFull (e : Elem) (rest : List Op) (ch : List Elem) : s.pc = .idle → s.prog = Op.push e :: rest →
+      s.m.err = none → s.m.chunk = some ch → ch.length = s.m.chunkSize → CStep s { s with pc := .pushSend }
+  | pushRoom (e : Elem) (rest : List Op) (ch : List Elem) : s.pc = .idle → s.prog = Op.push e :: rest →
+      s.m.err = none → s.m.chunk = some ch → ch.length ≠ s.m.chunkSize →
+      CStep s (finishOp { s with m := (push s.m e).1 } .ok none)
+  | finErr (rest : List Op) (r : Res) : s.pc = .idle → s.prog = Op.finalise :: rest →
+      s.m.err = some r → CStep s (finishOp s r none)
+  | finNil (rest : List Op) : s.pc = .idle → s.prog = Op.finalise :: rest →
+      s.m.err = none → s.m.chunk = none → CStep s (finishOp s .ok none)
+  | finFast (rest : List Op) (ch : List Elem) : s.pc = .idle → s.prog = Op.finalise :: rest →
+      s.m.err = none → s.m.chunk = some ch → s.m.pos < s.m.chunkSize →
+      CStep s (finishOp { s with m := (finalise s.m).1 } .ok none)
+  | finDisk (rest : List Op) (ch : List Elem) : s.pc = .idle → s.prog = Op.finalise :: rest →
+      s.m.err = none → s.m.chunk = some ch → ¬ s.m.pos < s.m.chunkSize → 0 < ch.length →
+      CStep s { s with m := { s.m with fast := false }, pc := .finSend }
+  | finEmpty (rest : List Op) (ch : List Elem) (flt : Fault) (fs : List File) (ok : Bool) :
+      s.pc = .idle → s.prog = Op.finalise :: rest →
+      s.m.err = none → s.m.chunk = some ch → ¬ s.m.pos < s.m.chunkSize → ¬ 0 < ch.length →
+      primeAll s.flt s.m.files = (flt, fs, ok) →
+      CStep s (finishOp { s with flt := flt, m := { s.m with fast := false, pos := 0, files := fs } }
+                (if ok then .ok else .ioerr) none)
+  | pull (rest : List Op) : s.pc = .idle → s.prog = Op.pull :: rest →
+      CStep s (finishOp (pullF s).1 (pullF s).2.1 (pullF s).2.2)
+  | clear (rest : List Op) : s.pc = .idle → s.prog = Op.clear :: rest →
+      CStep s (finishOp (clearF s).1 (clearF s).2 none)
+  | send (ch : List Elem) (wr : Chan (List Elem)) : s.pc = .pushSend → s.m.chunk = some ch →
+      s.writable.send ch = some wr →
+      CStep s { s with writable := wr, wg := s.wg + 1, writers := s.writers ++ [{}], pc := .pushRecv }
+  | recvErr (e : Elem) (rest : List Op) (r : Res) : s.pc = .pushRecv → s.m.pool ≠ 0 →
+      s.prog = Op.push e :: rest → s.m.err = some r →
+      CStep s (finishOp { s with m := { s.m with pool := s.m.pool - 1, chunk := some [] } } r none)
+  | recvOk (e : Elem) (rest : List Op) : s.pc = .pushRecv → s.m.pool ≠ 0 →
+      s.prog = Op.push e :: rest → s.m.err = none →
+      CStep s (finishOp { s with m := { s.m with pool := s.m.pool - 1, chunk := some [e], pos := s.m.pos + 1, len := s.m.len + 1 } } .ok none)
+  | fsend (ch : List Elem) (wr : Chan (List Elem)) : s.pc = .finSend → s.m.chunk = some ch →
+      s.writable.send ch = some wr →
+      CStep s { s with writable := wr, wg := s.wg + 1, m := { s.m with chunk := none }, inl := {}, pc := .finWrite }
+  | fwrite (w : Writer) (s' : CState) : s.pc = .finWrite → wstep s s.inl = some (w, s') →
+      CStep s { s' with inl := w, pc := if w.pc = .done then .finWait else .finWrite }
+  | waitErr (r : Res) : s.pc = .finWait → s.wg = 0 → s.m.err = some r → CStep s (finishOp s r none)
+  | waitOk (flt : Fault) (fs : List File) (ok : Bool) : s.pc = .finWait → s.wg = 0 → s.m.err = none →
+      primeAll s.flt s.m.files = (flt, fs, ok) →
+      CStep s (finishOp { s with flt := flt, m := { s.m with pos := 0, files := fs } } (if ok then .ok else .ioerr) none)
+
+theorem cstep_cases {s t : CState} (h : cstep s = some t) : CStep s t := by
+  cases hpc : s.pc
+  · cases hprog : s.prog with
+    | nil => simp [cstep, hpc, hprog] at h
+    | cons op rest =>
+      cases op with
+      | push e =>
+        cases herr : s.m.err with
+        | some r =>
+          have e1 : cstep s = some (finishOp s r none) := by simp [cstep, hpc, hprog, herr]
+          rw [e1] at h; cases h; exact .pushErr e rest r hpc hprog herr
+        | none =>
+          cases hch : s.m.chunk with
+          | none =>
+            have e1 : cstep s = some (finishOp s .finalised none) := by simp [cstep, hpc, hprog, herr, hch]
+            rw [e1] at h; cases h; exact .pushNil e rest hpc hprog herr hch
+          | some ch =>
+            by_cases hfull : ch.length = s.m.chunkSize
+            · have e1 : cstep s = some { s with pc := .pushSend } := by simp [cstep, hpc, hprog, herr, hch, hfull]
+              rw [e1] at h; cases h; exact .pushFull e rest ch hpc hprog herr hch hfull
+            · have e1 : cstep s = some (finishOp { s with m := (push s.m e).1 } .ok none) := by
+                simp [cstep, hpc, hprog, herr, hch, hfull]
+              rw [e1] at h; cases h; exact .pushRoom e rest ch hpc hprog herr hch hfull
+      | finalise =>
+        cases herr : s.m.err with
+        | some r =>
+          have e1 : cstep s = some (finishOp s r none) := by simp [cstep, hpc, hprog, herr]
+          rw [e1] at h; cases h; exact .finErr rest r hpc hprog herr
+        | none =>
+          cases hch : s.m.chunk with
+          | none =>
+            have e1 : cstep s = some (finishOp s .ok none) := by simp [cstep, hpc, hprog, herr, hch]
+            rw [e1] at h; cases h; exact .finNil rest hpc hprog herr hch
+          | some ch =>
+            by_cases hlt : s.m.pos < s.m.chunkSize
+            · have e1 : cstep s = some (finishOp { s with m := (finalise s.m).1 } .ok none) := by
+                simp [cstep, hpc, hprog, herr, hch, hlt]
+              rw [e1] at h; cases h; exact .finFast rest ch hpc hprog herr hch hlt
+            · by_cases hpos : 0 < ch.length
+              · have e1 : cstep s = some { s with m := { s.m with fast := false }, pc := .finSend } := by
+                  simp [cstep, hpc, hprog, herr, hch, hlt, hpos]
+                rw [e1] at h; cases h; exact .finDisk rest ch hpc hprog herr hch hlt hpos
+              · cases hp : primeAll s.flt s.m.files with
+                | mk flt rest' =>
+                  obtain ⟨fs, ok⟩ := rest'
+                  have e1 : cstep s = some (finishOp { s with flt := flt, m := { s.m with fast := false, pos := 0, files := fs } }
+                      (if ok then .ok else .ioerr) none) := by
+                    simp [cstep, hpc, hprog, herr, hch, hlt, hpos, hp]
+                  rw [e1] at h; cases h; exact .finEmpty rest ch flt fs ok hpc hprog herr hch hlt hpos hp
+      | pull =>
+        have e1 : cstep s = some (finishOp (pullF s).1 (pullF s).2.1 (pullF s).2.2) := by simp [cstep, hpc, hprog]
+        rw [e1] at h; cases h; exact .pull rest hpc hprog
+      | clear =>
+        have e1 : cstep s = some (finishOp (clearF s).1 (clearF s).2 none) := by simp [cstep, hpc, hprog]
+        rw [e1] at h; cases h; exact .clear rest hpc hprog
+  · cases hch : s.m.chunk with
+    | none => simp [cstep, hpc, hch] at h
+    | some ch =>
+      cases hsend : s.writable.send ch with
+      | none => simp [cstep, hpc, hch, hsend] at h
+      | some wr =>
+        have e1 : cstep s = some { s with writable := wr, wg := s.wg + 1, writers := s.writers ++ [{}], pc := .pushRecv } := by
+          simp [cstep, hpc, hch, hsend]
+        rw [e1] at h; cases h; exact .send ch wr hpc hch hsend
+  · by_cases hpool : s.m.pool = 0
+    · simp [cstep, hpc, hpool] at h
+    · cases hprog : s.prog with
+      | nil => simp [cstep, hpc, hpool, hprog] at h
+      | cons op rest =>
+        cases op with
+        | push e =>
+          cases herr : s.m.err with
+          | some r =>
+            have e1 : cstep s = some (finishOp { s with m := { s.m with pool := s.m.pool - 1, chunk := some [] } } r none) := by
+              simp [cstep, hpc, hpool, hprog, herr]
+            rw [e1] at h; cases h; exact .recvErr e rest r hpc hpool hprog herr
+          | none =>
+            have e1 : cstep s = some (finishOp { s with m := { s.m with pool := s.m.pool - 1, chunk := some [e], pos := s.m.pos + 1, len := s.m.len + 1 } } .ok none) := by
+              simp [cstep, hpc, hpool, hprog, herr]
+            rw [e1] at h; cases h; exact .recvOk e rest hpc hpool hprog herr
+        | finalise => simp [cstep, hpc, hpool, hprog] at h
+        | pull => simp [cstep, hpc, hpool, hprog] at h
+        | clear => simp [cstep, hpc, hpool, hprog] at h
+  · cases hch : s.m.chunk with
+    | none => simp [cstep, hpc, hch] at h
+    | some ch =>
+      cases hsend : s.writable.send ch with
+      | none => simp [cstep, hpc, hch, hsend] at h
+      | some wr =>
+        have e1 : cstep s = some { s with writable := wr, wg := s.wg + 1, m := { s.m with chunk := none }, inl := {}, pc := .finWrite } := by
+          simp [cstep, hpc, hch, hsend]
+        rw [e1] at h; cases h; exact .fsend ch wr hpc hch hsend
+  · cases hw : wstep s s.inl with
+    | none => simp [cstep, hpc, hw] at h
+    | some p =>
+      obtain ⟨w, s'⟩ := p
+      have e1 : cstep s = some { s' with inl := w, pc := if w.pc = .done then .finWait else .finWrite } := by
+        simp [cstep, hpc, hw]
+      rw [e1] at h; cases h; exact .fwrite w s' hpc hw
+  · by_cases hwg : s.wg = 0
+    · cases herr : s.m.err with
+      | some r =>
+        have e1 : cstep s = some (finishOp s r none) := by simp [cstep, hpc, hwg, herr]
+        rw [e1] at h; cases h; exact .waitErr r hpc hwg herr
+      | none =>
+        cases hp : primeAll s.flt s.m.files with
+        | mk flt rest =>
+          obtain ⟨fs, ok⟩ := rest
+          have e1 : cstep s = some (finishOp { s with flt := flt, m := { s.m with pos := 0, files := fs } }
+              (if ok then .ok else .ioerr) none) := by
+            simp [cstep, hpc, hwg, herr, hp]
+          rw [e1] at h; cases h; exact .waitOk flt fs ok hpc hwg herr hp
+    · simp [cstep, hpc, hwg] at h
+
+/-! ### preservation: reported and pending errors -/
+
+theorem wstep_err {s s' : CState} {w w' : Writer} (h : wstep s w = some (w', s')) :
+    s'.m.err = s.m.err ∨ s'.m.err = some .ioerr := by
+  unfold wstep at h
+  cases hpc : w.pc <;> simp only [hpc] at h
+  · cases hr : s.writable.recv with
+    | none => simp [hr] at h
+    | some p =>
+      obtain ⟨r, ch⟩ := p
+      simp only [hr] at h
+      cases ht : tick s.flt .tempfile with
+      | mk bad flt =>
+        simp only [ht] at h
+        cases bad <;> simp only [Bool.false_eq_true, if_false, if_true, Option.some.injEq, Prod.mk.injEq] at h <;>
+          obtain ⟨_, rfl⟩ := h
+        · exact Or.inl rfl
+        · exact Or.inr rfl
+  · simp only [Option.some.injEq, Prod.mk.injEq] at h; obtain ⟨_, rfl⟩ := h; exact Or.inl rfl
+  · cases htodo : w.todo with
+    | nil => simp only [htodo, Option.some.injEq, Prod.mk.injEq] at h; obtain ⟨_, rfl⟩ := h; exact Or.inl rfl
+    | cons e t =>
+      simp only [htodo] at h
+      cases ht : tick s.flt .encode with
+      | mk bad flt =>
+        simp only [ht] at h
+        cases bad <;> simp only [Bool.false_eq_true, if_false, if_true, Option.some.injEq, Prod.mk.injEq] at h <;>
+          obtain ⟨_, rfl⟩ := h
+        · exact Or.inl rfl
+        · exact Or.inr rfl
+  · cases ht : tick s.flt .sync with
+    | mk bad flt =>
+      simp only [ht, Option.some.injEq, Prod.mk.injEq] at h
+      obtain ⟨_, rfl⟩ := h
+      cases bad
+      · exact Or.inl rfl
+      · exact Or.inr rfl
+  · split at h
+    · simp only [Option.some.injEq, Prod.mk.injEq] at h; obtain ⟨_, rfl⟩ := h; exact Or.inl rfl
+    · simp at h
+  · simp at h
+
+theorem wstep_done_pool {s s' : CState} {w w' : Writer} (h : wstep s w = some (w', s'))
+    (hd : w'.pc = .done) : 1 ≤ s'.m.pool := by
+  unfold wstep at h
+  cases hpc : w.pc <;> simp only [hpc] at h
+  · cases hr : s.writable.recv with
+    | none => simp [hr] at h
+    | some p =>
+      obtain ⟨r, ch⟩ := p
+      simp only [hr] at h
+      cases ht : tick s.flt .tempfile with
+      | mk bad flt =>
+        simp only [ht] at h
+        cases bad <;> simp only [Bool.false_eq_true, if_false, if_true, Option.some.injEq, Prod.mk.injEq] at h <;>
+          obtain ⟨rfl, _⟩ := h <;> simp at hd
+  · simp only [Option.some.injEq, Prod.mk.injEq] at h; obtain ⟨rfl, _⟩ := h
+    simp only at hd; split at hd <;> simp at hd
+  · cases htodo : w.todo with
+    | nil => simp only [htodo, Option.some.injEq, Prod.mk.injEq] at h; obtain ⟨rfl, _⟩ := h; simp at hd
+    | cons e t =>
+      simp only [htodo] at h
+      cases ht : tick s.flt .encode with
+      | mk bad flt =>
+        simp only [ht] at h
+        cases bad <;> simp only [Bool.false_eq_true, if_false, if_true, Option.some.injEq, Prod.mk.injEq] at h <;>
+          obtain ⟨rfl, _⟩ := h
+        · simp only at hd; split at hd <;> simp at hd
+        · simp at hd
+  · cases ht : tick s.flt .sync with
+    | mk bad flt =>
+      simp only [ht, Option.some.injEq, Prod.mk.injEq] at h
+      obtain ⟨rfl, _⟩ := h; simp at hd
+  · split at h
+    · simp only [Option.some.injEq, Prod.mk.injEq] at h; obtain ⟨_, rfl⟩ := h
+      show 1 ≤ s.m.pool + 1; omega
+    · simp at h
+  · simp at h
+
+theorem inl_effect {s s' : CState} {w : Writer} (hs : Str s) (hpc : s.pc = .finWrite)
+    (hw : wstep s s.inl = some (w, s')) : WEffect s s' s.inl w := by
+  apply wstep_effect hw
+  intro _
+  have hlive : live s.inl = true := by simp [live, hs.inlLive hpc]
+  rw [hs.wg]; simp [cnt, hpc, hlive, b2n]
+
+theorem writer_effect {s s' : CState} {k : Nat} {w w' : Writer} (hs : Str s)
+    (hk : s.writers[k]? = some w) (hw : wstep s w = some (w', s')) : WEffect s s' w w' :=
+  wstep_effect hw (fun hl => by rw [hs.wg]; exact cnt_ge_of_mem live hk hl)
+
+theorem Reported_finish {s : CState} (v : Option Elem) : Reported (finishOp s .ioerr v) :=
+  ⟨⟨.ioerr, v, s.m.len, s.m.pos⟩, by simp [finishOp], rfl⟩
+
+theorem Reported_finish_of {s s1 : CState} (h : Reported s) (ho : s1.outs = s.outs) (r : Res) (v : Option Elem) :
+    Reported (finishOp s1 r v) := by
+  obtain ⟨o, ho', hr⟩ := h
+  exact ⟨o, by simp [finishOp, ho, ho'], hr⟩
+
+theorem Reported_cstep {s t : CState} (hs : Str s) (h : Reported s) (hst : CStep s t) : Reported t := by
+  cases hst with
+  | pushErr => apply Reported_finish_of h; rfl
+  | pushNil => apply Reported_finish_of h; rfl
+  | pushFull => exact h
+  | pushRoom => apply Reported_finish_of h; rfl
+  | finErr => apply Reported_finish_of h; rfl
+  | finNil => apply Reported_finish_of h; rfl
+  | finFast => apply Reported_finish_of h; rfl
+  | finDisk => exact h
+  | finEmpty => apply Reported_finish_of h; rfl
+  | pull => exact Reported_finish_of h (pullF_frame s).outs _ _
+  | clear => exact Reported_finish_of h (clearF_frame s).outs _ _
+  | send => exact h
+  | recvErr => apply Reported_finish_of h; rfl
+  | recvOk => apply Reported_finish_of h; rfl
+  | fsend => exact h
+  | fwrite w s' hpc hw =>
+    have E := inl_effect hs hpc hw
+    obtain ⟨o, ho, hr⟩ := h
+    exact ⟨o, by show o ∈ s'.outs; rw [E.outs]; exact ho, hr⟩
+  | waitErr => apply Reported_finish_of h; rfl
+  | waitOk => apply Reported_finish_of h; rfl
+
+theorem Pending_cstep {s t : CState} (hs : Str s) (h : Pending s) (hst : CStep s t) :
+    Reported t ∨ Pending t := by
+  obtain ⟨herr, hprog⟩ := h
+  cases hst with
+  | pushErr e rest r _ _ he => rw [herr] at he; cases he; exact Or.inl (Reported_finish _)
+  | pushNil _ _ _ _ he => rw [herr] at he; cases he
+  | pushFull _ _ _ _ _ he => rw [herr] at he; cases he
+  | pushRoom _ _ _ _ _ he => rw [herr] at he; cases he
+  | finErr rest r _ _ he => rw [herr] at he; cases he; exact Or.inl (Reported_finish _)
+  | finNil _ _ _ he => rw [herr] at he; cases he
+  | finFast _ _ _ _ he => rw [herr] at he; cases he
+  | finDisk _ _ _ _ he => rw [herr] at he; cases he
+  | finEmpty _ _ _ _ _ _ _ he => rw [herr] at he; cases he
+  | pull rest _ hp => rcases hprog with ⟨e, r, h'⟩ | ⟨r, h'⟩ <;> rw [h'] at hp <;> cases hp
+  | clear rest _ hp => rcases hprog with ⟨e, r, h'⟩ | ⟨r, h'⟩ <;> rw [h'] at hp <;> cases hp
+  | send => exact Or.inr ⟨herr, hprog⟩
+  | recvErr e rest r _ _ _ he => rw [herr] at he; cases he; exact Or.inl (Reported_finish _)
+  | recvOk _ _ _ _ _ he => rw [herr] at he; cases he
+  | fsend => exact Or.inr ⟨herr, hprog⟩
+  | fwrite w s' hpc hw =>
+    have E := inl_effect hs hpc hw
+    refine Or.inr ⟨?_, ?_⟩
+    · show s'.m.err = some .ioerr
+      rcases wstep_err hw with h1 | h1
+      · rw [h1]; exact herr
+      · exact h1
+    · show (∃ e rest, s'.prog = Op.push e :: rest) ∨ (∃ rest, s'.prog = Op.finalise :: rest)
+      rw [E.prog]; exact hprog
+  | waitErr r _ _ he => rw [herr] at he; cases he; exact Or.inl (Reported_finish _)
+  | waitOk _ _ _ _ _ he => rw [herr] at he; cases he
+
+/-! ### preservation: a background writer moves -/
+
+theorem wstep_done_none (s : CState) {w : Writer} (h : w.pc = .done) : wstep s w = none := by
+  simp [wstep, h]
+
+theorem wstep_pool_ge {s s' : CState} {w w' : Writer} (h : wstep s w = some (w', s')) :
+    s.m.pool ≤ s'.m.pool := by
+  unfold wstep at h
+  cases hpc : w.pc <;> simp only [hpc] at h
+  · cases hr : s.writable.recv with
+    | none => simp [hr] at h
+    | some p =>
+      obtain ⟨r, ch⟩ := p
+      simp only [hr] at h
+      cases ht : tick s.flt .tempfile with
+      | mk bad flt =>
+        simp only [ht] at h
+        cases bad <;> simp only [Bool.false_eq_true, if_false, if_true, Option.some.injEq, Prod.mk.injEq] at h <;>
+          obtain ⟨_, rfl⟩ := h <;> exact Nat.le_refl _
+  · simp only [Option.some.injEq, Prod.mk.injEq] at h; obtain ⟨_, rfl⟩ := h; exact Nat.le_refl _
+  · cases htodo : w.todo with
+    | nil => simp only [htodo, Option.some.injEq, Prod.mk.injEq] at h; obtain ⟨_, rfl⟩ := h; exact Nat.le_refl _
+    | cons e t =>
+      simp only [htodo] at h
+      cases ht : tick s.flt .encode with
+      | mk bad flt =>
+        simp only [ht] at h
+        cases bad <;> simp only [Bool.false_eq_true, if_false, if_true, Option.some.injEq, Prod.mk.injEq] at h <;>
+          obtain ⟨_, rfl⟩ := h <;> exact Nat.le_refl _
+  · cases ht : tick s.flt .sync with
+    | mk bad flt =>
+      simp only [ht, Option.some.injEq, Prod.mk.injEq] at h
+      obtain ⟨_, rfl⟩ := h
+      cases bad <;> exact Nat.le_refl _
+  · split at h
+    · simp only [Option.some.injEq, Prod.mk.injEq] at h; obtain ⟨_, rfl⟩ := h
+      show s.m.pool ≤ s.m.pool + 1; omega
+    · simp at h
+  · simp at h
+
+theorem head_push_or_fin (todo : List Elem) (tl : List Op) :
+    (∃ e rest, todo.map Op.push ++ Op.finalise :: tl = Op.push e :: rest)
+      ∨ (∃ rest, todo.map Op.push ++ Op.finalise :: tl = Op.finalise :: rest) := by
+  cases todo with
+  | nil => exact Or.inr ⟨tl, rfl⟩
+  | cons e t => exact Or.inl ⟨e, _, rfl⟩
+
+theorem CInv_wactor {s s' : CState} {k : Nat} {w w' : Writer} (hs : Str s) (h : CInv c ac cy s)
+    (hk : s.writers[k]? = some w) (hw : wstep s w = some (w', s')) :
+    CInv c ac cy { s' with writers := s'.writers.set k w' } := by
+  have E := writer_effect hs hk hw
+  have hklt : k < s.writers.length := (List.getElem?_eq_some_iff.mp hk).1
+  rcases h with hrep | hpend | ⟨herr, hph⟩
+  · obtain ⟨o, ho, hr⟩ := hrep
+    exact Or.inl ⟨o, by show o ∈ s'.outs; rw [E.outs]; exact ho, hr⟩
+  · obtain ⟨he, hp⟩ := hpend
+    refine Or.inr (Or.inl ⟨?_, ?_⟩)
+    · show s'.m.err = some .ioerr
+      rcases wstep_err hw with h1 | h1
+      · rw [h1]; exact he
+      · exact h1
+    · show (∃ e rest, s'.prog = Op.push e :: rest) ∨ (∃ rest, s'.prog = Op.finalise :: rest)
+      rw [E.prog]; exact hp
+  · -- no error so far
+    have herr' : s'.m.err = none ∨ s'.m.err = some .ioerr := by
+      rcases wstep_err hw with h1 | h1
+      · left; rw [h1]; exact herr
+      · right; exact h1
+    rcases hph with ⟨xs, todo, ch, cp, hF⟩ | ⟨A, cp, hZ⟩ | hD | hE
+    · rcases herr' with he' | he'
+      · refine Or.inr (Or.inr ⟨he', Or.inl ⟨xs, todo, ch, cp, ?_⟩⟩)
+        have hdi := DI_wstep hF.di hk hw he'
+        have hlen : (s'.writers.set k w').length = s.writers.length := by rw [List.length_set, E.writers]
+        have hne : s'.writers.set k w' ≠ [] := by
+          intro h0; rw [h0] at hlen; simp at hlen; omega
+        have hne0 : s.writers ≠ [] := by intro h0; rw [h0] at hklt; simp at hklt
+        refine ⟨hF.split, by show s'.prog = _; rw [E.prog]; exact hF.prog,
+          by show s'.outs.reverse = _; rw [E.outs]; exact hF.outs,
+          by show s'.m.pos = _; rw [E.pos]; exact hF.pos, by show s'.m.len = _; rw [E.len]; exact hF.len,
+          by show s'.m.chunkSize = _; rw [E.cs]; exact hF.cs, by show s'.m.autoClear = _; rw [E.ac]; exact hF.ac,
+          by show s'.m.chunk = _; rw [E.chunk]; exact hF.chunk, hF.chLe, fun h0 => absurd h0 hne,
+          by show DI s'.writable.buf (s'.writers.set k w') s'.m.files cp xs; rw [E.writers]; exact hdi, ?_⟩
+        show (s'.pc = _ ∧ _) ∨ (s'.pc = _ ∧ _) ∨ (s'.pc = _ ∧ _)
+        rw [E.pc]
+        simp only [hlen]
+        rcases hF.at_ with ⟨a, b, c', d⟩ | ⟨a, b, c', d⟩ | ⟨a, b, c', d⟩
+        · exact Or.inl ⟨a, b, c', fun _ => d hne0⟩
+        · exact Or.inr (Or.inl ⟨a, b, c', d⟩)
+        · exact Or.inr (Or.inr ⟨a, b, c', hne⟩)
+      · refine Or.inr (Or.inl ⟨he', ?_⟩)
+        show (∃ e rest, s'.prog = Op.push e :: rest) ∨ (∃ rest, s'.prog = Op.finalise :: rest)
+        rw [E.prog, hF.prog]; exact head_push_or_fin _ _
+    · rcases herr' with he' | he'
+      · have hA : A[k]? = some w := by
+          rcases hZ.at_ with ⟨_, hA, _⟩ | ⟨_, hA, _⟩ | ⟨_, hA, _⟩
+          · rw [hA]; exact hk
+          · rw [hA, List.getElem?_append_left hklt]; exact hk
+          · rw [hA]; exact hk
+        have hdi := DI_wstep hZ.di hA hw he'
+        refine Or.inr (Or.inr ⟨he', Or.inr (Or.inl ⟨A.set k w', cp, ?_⟩)⟩)
+        refine ⟨by show s'.prog = _; rw [E.prog]; exact hZ.prog,
+          by show s'.outs.reverse = _; rw [E.outs]; exact hZ.outs,
+          by show s'.m.pos = _; rw [E.pos]; exact hZ.pos, by show s'.m.len = _; rw [E.len]; exact hZ.len,
+          by show s'.m.chunkSize = _; rw [E.cs]; exact hZ.cs, by show s'.m.autoClear = _; rw [E.ac]; exact hZ.ac,
+          by show s'.m.fast = _; rw [E.fast]; exact hZ.fast, hdi, ?_⟩
+        show (s'.pc = _ ∧ A.set k w' = s'.writers.set k w' ∧ s'.m.chunk = _ ∧ _)
+          ∨ (s'.pc = _ ∧ A.set k w' = s'.writers.set k w' ++ [s'.inl] ∧ s'.m.chunk = _ ∧ _)
+          ∨ (s'.pc = _ ∧ A.set k w' = s'.writers.set k w' ∧ s'.m.chunk = _ ∧ _ ∧ 1 ≤ s'.m.pool)
+        rw [E.pc, E.writers, E.chunk, E.inl]
+        rcases hZ.at_ with ⟨a, hA', b, d⟩ | ⟨a, hA', b, d⟩ | ⟨a, hA', b, d, e⟩
+        · exact Or.inl ⟨a, by rw [hA'], b, d⟩
+        · refine Or.inr (Or.inl ⟨a, ?_, b, d⟩)
+          rw [hA', List.set_append]; simp [hklt]
+        · exact Or.inr (Or.inr ⟨a, by rw [hA'], b, d, Nat.le_trans e (wstep_pool_ge hw)⟩)
+      · refine Or.inr (Or.inl ⟨he', ?_⟩)
+        show (∃ e rest, s'.prog = Op.push e :: rest) ∨ (∃ rest, s'.prog = Op.finalise :: rest)
+        rw [E.prog, hZ.prog]; exact Or.inr ⟨_, rfl⟩
+    · have := hD.quiet w (mem_of_getElem?' hk)
+      rw [wstep_done_none s this] at hw; cases hw
+    · have := hE.quiet w (mem_of_getElem?' hk)
+      rw [wstep_done_none s this] at hw; cases hw
+
+/-! ### preservation: the caller moves while filling -/
+
+theorem todo_of_push {todo : List Elem} {tl rest : List Op} {e : Elem}
+    (h : todo.map Op.push ++ Op.finalise :: tl = Op.push e :: rest) :
+    ∃ todo', todo = e :: todo' ∧ rest = todo'.map Op.push ++ Op.finalise :: tl := by
+  cases todo with
+  | nil => simp at h
+  | cons x t =>
+    simp only [List.map_cons, List.cons_append, List.cons.injEq, Op.push.injEq] at h
+    exact ⟨t, by rw [h.1], h.2.symm⟩
+
+theorem todo_of_fin {todo : List Elem} {tl rest : List Op}
+    (h : todo.map Op.push ++ Op.finalise :: tl = Op.finalise :: rest) : todo = [] ∧ rest = tl := by
+  cases todo with
+  | nil => simp at h; exact ⟨rfl, h.symm⟩
+  | cons x t => simp at h
+
+theorem finishOp_ok_prog (s : CState) (v : Option Elem) : (finishOp s .ok v).prog = s.prog.tail := by
+  simp [finishOp]
+
+theorem finishOp_outs (s : CState) (r : Res) (v : Option Elem) :
+    (finishOp s r v).outs.reverse = s.outs.reverse ++ [⟨r, v, s.m.len, s.m.pos⟩] := by
+  simp [finishOp]
+
+theorem perm_of_count {l₁ l₂ : List Elem} (h : ∀ a, List.count a l₁ = List.count a l₂) : l₁.Perm l₂ :=
+  List.perm_iff_count.mpr h
+
+theorem F_cstep {s t : CState} {xs todo ch cp : List Elem} (hc : 1 ≤ c) (hs : Str s)
+    (herr : s.m.err = none) (hF : PhaseF c ac cy s xs todo ch cp) (hst : CStep s t) : CInv c ac cy t := by
+  have hpcs : s.pc = .idle ∨ s.pc = .pushSend ∨ s.pc = .pushRecv := by
+    rcases hF.at_ with ⟨a, _⟩ | ⟨a, _⟩ | ⟨a, _⟩
+    · exact Or.inl a
+    · exact Or.inr (Or.inl a)
+    · exact Or.inr (Or.inr a)
+  have pcne : ∀ {p : CPc}, s.pc = p → p = .idle ∨ p = .pushSend ∨ p = .pushRecv := by
+    intro p hp; rw [← hp]; exact hpcs
+  cases hst with
+  | pushErr _ _ _ _ _ he => rw [herr] at he; cases he
+  | finErr _ _ _ _ he => rw [herr] at he; cases he
+  | recvErr _ _ _ _ _ _ he => rw [herr] at he; cases he
+  | waitErr _ _ _ he => rw [herr] at he; cases he
+  | pushNil _ _ _ _ _ hch => rw [hF.chunk] at hch; cases hch
+  | finNil _ _ _ _ hch => rw [hF.chunk] at hch; cases hch
+  | pull rest _ hp =>
+    rw [hF.prog] at hp
+    rcases head_push_or_fin todo (tailOps cy) with ⟨e, r, h'⟩ | ⟨r, h'⟩ <;> rw [h'] at hp <;> cases hp
+  | clear rest _ hp =>
+    rw [hF.prog] at hp
+    rcases head_push_or_fin todo (tailOps cy) with ⟨e, r, h'⟩ | ⟨r, h'⟩ <;> rw [h'] at hp <;> cases hp
+  | fsend _ _ hpc => rcases pcne hpc with h | h | h <;> cases h
+  | fwrite _ _ hpc => rcases pcne hpc with h | h | h <;> cases h
+  | waitOk _ _ _ hpc => rcases pcne hpc with h | h | h <;> cases h
+  | pushFull e rest ch' hpc hprog _ hch hfull =>
+    rw [hF.chunk] at hch; cases hch
+    rcases hF.at_ with ⟨_, hcp, hcnt, hne⟩ | ⟨a, _⟩ | ⟨a, _⟩
+    · refine Or.inr (Or.inr ⟨herr, Or.inl ⟨xs, todo, ch, cp, ?_⟩⟩)
+      refine ⟨hF.split, hF.prog, hF.outs, hF.pos, hF.len, hF.cs, hF.ac, hF.chunk, hF.chLe, hF.empty, hF.di, ?_⟩
+      refine Or.inr (Or.inl ⟨rfl, hcp, by rw [hfull, hF.cs], ?_⟩)
+      rw [hcnt, hfull, hF.cs]
+    · rw [hpc] at a; cases a
+    · rw [hpc] at a; cases a
+  | pushRoom e rest ch' hpc hprog _ hch hfull =>
+    rw [hF.chunk] at hch; cases hch
+    rw [hF.prog] at hprog
+    obtain ⟨todo', rfl, hrest⟩ := todo_of_push hprog
+    rcases hF.at_ with ⟨_, hcp, hcnt, hne⟩ | ⟨a, _⟩ | ⟨a, _⟩
+    · subst hcp
+      have hpush := push_room e herr hF.chunk hfull
+      refine Or.inr (Or.inr ⟨?_, Or.inl ⟨xs ++ [e], todo', cp ++ [e], cp ++ [e], ?_⟩⟩)
+      · show (finishOp _ _ _).m.err = none
+        simp [finishOp, hpush, herr]
+      · refine ⟨by rw [hF.split]; simp, ?_, ?_, ?_, ?_, ?_, ?_, ?_, ?_, ?_, ?_, ?_⟩
+        · rw [finishOp_ok_prog]; show s.prog.tail = _; rw [hF.prog]; rfl
+        · rw [finishOp_outs]; show s.outs.reverse ++ _ = _
+          rw [hF.outs, hpush]; simp only [List.length_append, List.length_cons, List.length_nil, pushOuts_succ]
+          rw [hF.len, hF.pos]
+        · show (finishOp _ _ _).m.pos = _; simp [finishOp, hpush, hF.pos]
+        · show (finishOp _ _ _).m.len = _; simp [finishOp, hpush, hF.len]
+        · show (finishOp _ _ _).m.chunkSize = _; simp [finishOp, hpush, hF.cs]
+        · show (finishOp _ _ _).m.autoClear = _; simp [finishOp, hpush, hF.ac]
+        · show (finishOp _ _ _).m.chunk = _; simp [finishOp, hpush]
+        · have := hF.chLe; have := hF.cs; simp only [List.length_append, List.length_cons, List.length_nil]; omega
+        · intro h0
+          have := hF.empty h0
+          simpa [finishOp, hpush] using this
+        · have := DI_push hF.di e
+          simpa [finishOp, hpush] using this
+        · refine Or.inl ⟨rfl, rfl, ?_, fun _ => by simp⟩
+          show (xs ++ [e]).length = (finishOp _ _ _).writers.length * c + (cp ++ [e]).length
+          simp only [finishOp, List.length_append, List.length_cons, List.length_nil]
+          omega
+    · rw [hpc] at a; cases a
+    · rw [hpc] at a; cases a
+  | finFast rest ch' hpc hprog _ hch hlt =>
+    rw [hF.chunk] at hch; cases hch
+    rw [hF.prog] at hprog
+    obtain ⟨rfl, hrest⟩ := todo_of_fin hprog
+    have hxs : xs = cy.pushes := by rw [hF.split]; simp
+    rcases hF.at_ with ⟨_, hcp, hcnt, hne⟩ | ⟨a, _⟩ | ⟨a, _⟩
+    · subst hcp
+      have hW : s.writers = [] := by
+        cases hwr : s.writers with
+        | nil => rfl
+        | cons w ws =>
+          exfalso
+          rw [hwr] at hcnt
+          simp only [List.length_cons, Nat.add_mul, Nat.one_mul] at hcnt
+          rw [hF.pos, hF.cs] at hlt; omega
+      obtain ⟨hfiles, hwb⟩ := hF.empty hW
+      have hlen : xs.length = cp.length := by rw [hcnt, hW]; simp
+      have hperm : cp.Perm xs := by
+        apply perm_of_count
+        intro a
+        have := hF.di.perm a
+        rw [hwb, hW, hfiles] at this
+        simpa using this
+      have hfin : (finalise s.m).1 = { s.m with fast := true, chunk := some (sortRun cp), pos := 0 } := by
+        simp [finalise, herr, hF.chunk, hlt]
+      have hpool : s.m.pool ≤ 1 := by
+        have h1 := hs.cap
+        have h2 : chunkTok s = 1 := by simp [chunkTok, hF.chunk, hpc, b2n]
+        omega
+      refine Or.inr (Or.inr ⟨?_, Or.inr (Or.inr (Or.inl ⟨rfl, ?_, ?_⟩))⟩)
+      · show (finishOp _ _ _).m.err = none
+        simp [finishOp, hfin, herr]
+      · intro w hw; simp [finishOp, hW] at hw
+      · refine ⟨[], 0, cy.pulls, ?_, by simp, ?_, by simp [Sorted], Or.inl ⟨rfl, ?_, ?_, by simp, ?_⟩⟩
+        · rw [finishOp_ok_prog]; show s.prog.tail = _; rw [hF.prog]; rfl
+        · rw [finishOp_outs]; show s.outs.reverse ++ _ = _
+          rw [hF.outs, hfin, ← hxs]; simp [dOuts, hF.len]
+        · have hrem : remaining (finishOp { s with m := (finalise s.m).1 } Res.ok none).m = sortRun cp := by
+            simp [finishOp, hfin, remaining]
+          refine ⟨by simp [finishOp, hfin, hF.cs], by simp [finishOp, hfin, hF.ac], by simp [finishOp, hfin, herr],
+            by simp [finishOp, hfin, hF.len, hxs], ?_, ?_⟩
+          · rw [hrem, sortRun_length, ← hlen, hxs]; simp [finishOp, hfin]
+          · refine Or.inl ⟨by simp [finishOp, hfin], by simp [finishOp, hfin, hfiles], Or.inl ⟨sortRun cp, ?_, sortRun_sorted cp, ?_⟩⟩
+            · simp [finishOp, hfin]
+            · simpa [finishOp, hfin] using hpool
+        · have hrem : remaining (finishOp { s with m := (finalise s.m).1 } Res.ok none).m = sortRun cp := by
+            simp [finishOp, hfin, remaining]
+          rw [hrem, ← hxs]; simpa using (sortRun_perm cp).trans hperm
+        · simp [finishOp, hfin]
+    · rw [hpc] at a; cases a
+    · rw [hpc] at a; cases a
+  | finDisk rest ch' hpc hprog _ hch hlt hpos =>
+    rw [hF.chunk] at hch; cases hch
+    rw [hF.prog] at hprog
+    obtain ⟨rfl, hrest⟩ := todo_of_fin hprog
+    have hxs : xs = cy.pushes := by rw [hF.split]; simp
+    rcases hF.at_ with ⟨_, hcp, hcnt, hne⟩ | ⟨a, _⟩ | ⟨a, _⟩
+    · subst hcp
+      have hcpne : cp ≠ [] := by intro h0; rw [h0] at hpos; simp at hpos
+      refine Or.inr (Or.inr ⟨herr, Or.inr (Or.inl ⟨s.writers, cp, ?_⟩)⟩)
+      refine ⟨by show s.prog = _; rw [hF.prog]; rfl, by show s.outs.reverse = _; rw [hF.outs, hxs],
+        by show s.m.pos = _; rw [hF.pos, hxs], by show s.m.len = _; rw [hF.len, hxs], hF.cs, hF.ac, rfl,
+        by rw [← hxs]; exact hF.di, Or.inl ⟨rfl, rfl, hF.chunk, hcpne⟩⟩
+    · rw [hpc] at a; cases a
+    · rw [hpc] at a; cases a
+  | finEmpty rest ch' flt fs ok hpc hprog _ hch hlt hpos _ =>
+    exfalso
+    rw [hF.chunk] at hch; cases hch
+    rcases hF.at_ with ⟨_, hcp, hcnt, hne⟩ | ⟨a, _⟩ | ⟨a, _⟩
+    · have hch0 : ch = [] := by
+        cases ch with
+        | nil => rfl
+        | cons _ _ => simp at hpos
+      have hW : s.writers = [] := by
+        cases hwr : s.writers with
+        | nil => rfl
+        | cons w ws => exact absurd hch0 (hne (by rw [hwr]; simp))
+      rw [hW, hch0] at hcnt
+      simp only [List.length_nil, Nat.zero_mul, Nat.add_zero] at hcnt
+      rw [hF.pos, hF.cs] at hlt
+      omega
+    · rw [hpc] at a; cases a
+    · rw [hpc] at a; cases a
+  | send ch' wr hpc hch hsend =>
+    rw [hF.chunk] at hch; cases hch
+    obtain ⟨hb, hcap, _⟩ := Chan.send_buf hsend
+    rcases hF.at_ with ⟨a, _⟩ | ⟨_, hcp, hfull, hcnt⟩ | ⟨a, _⟩
+    · rw [hpc] at a; cases a
+    · subst hcp
+      have hcpne : cp ≠ [] := by intro h0; rw [h0] at hfull; simp at hfull; omega
+      refine Or.inr (Or.inr ⟨herr, Or.inl ⟨xs, todo, cp, [], ?_⟩⟩)
+      refine ⟨hF.split, hF.prog, hF.outs, hF.pos, hF.len, hF.cs, hF.ac, hF.chunk, hF.chLe,
+        fun h0 => by simp at h0, ?_, Or.inr (Or.inr ⟨rfl, rfl, ?_, by simp⟩)⟩
+      · show DI wr.buf (s.writers ++ [newWriter]) s.m.files [] xs
+        rw [hb]; exact DI_send hF.di hcpne
+      · show xs.length = (s.writers ++ [newWriter]).length * c
+        simp only [List.length_append, List.length_cons, List.length_nil, Nat.add_mul, Nat.one_mul]
+        omega
+    · rw [hpc] at a; cases a
+  | recvOk e rest hpc hpool hprog _ =>
+    rw [hF.prog] at hprog
+    obtain ⟨todo', rfl, hrest⟩ := todo_of_push hprog
+    rcases hF.at_ with ⟨a, _⟩ | ⟨a, _⟩ | ⟨_, hcp, hcnt, hne⟩
+    · rw [hpc] at a; cases a
+    · rw [hpc] at a; cases a
+    · subst hcp
+      refine Or.inr (Or.inr ⟨?_, Or.inl ⟨xs ++ [e], todo', [e], [e], ?_⟩⟩)
+      · show (finishOp _ _ _).m.err = none
+        simp [finishOp, herr]
+      · refine ⟨by rw [hF.split]; simp, ?_, ?_, by simp [finishOp, hF.pos], by simp [finishOp, hF.len],
+          by simp [finishOp, hF.cs], by simp [finishOp, hF.ac], by simp [finishOp], by simpa using hc,
+          fun h0 => absurd h0 hne, ?_, ?_⟩
+        · rw [finishOp_ok_prog]; show s.prog.tail = _; rw [hF.prog]; rfl
+        · rw [finishOp_outs]; show s.outs.reverse ++ _ = _
+          rw [hF.outs]; simp only [List.length_append, List.length_cons, List.length_nil, pushOuts_succ]
+          rw [hF.len, hF.pos]
+        · have := DI_push hF.di e
+          simpa [finishOp] using this
+        · refine Or.inl ⟨rfl, rfl, ?_, fun _ => by simp⟩
+          show (xs ++ [e]).length = (finishOp _ _ _).writers.length * c + [e].length
+          simp only [finishOp, List.length_append, List.length_cons, List.length_nil]
+          omega
+
 end Biogo.MorassConc
